@@ -49,7 +49,8 @@ raw_fixed!(18, u16, 4);
 raw_fixed!(19, u64, 4);
 raw_fixed!(20, u64, 8);
 raw_fixed!(21, u8, 9);
-raw_fixed!(22, u8, 0);
+raw_fixed!(22, u64, 40);
+raw_fixed!(23, u8, 0);
 
 impl Raw for Bvd {
     const KID: u8 = 14;
@@ -118,6 +119,7 @@ macro_rules! with_kind {
             19 => { type $t = bva::Bvf<u64, 4>; $e }
             20 => { type $t = bva::Bvf<u64, 8>; $e }
             21 => { type $t = bva::Bvf<u8, 9>; $e }
+            22 => { type $t = bva::Bvf<u64, 40>; $e }
             _ => { type $t = bva::Bvf<u8, 0>; $e }
         }
     };
